@@ -8,6 +8,7 @@ import (
 
 	sasl "github.com/emersion/go-sasl"
 	"github.com/fluffle/goirc/client"
+	"github.com/fluffle/goirc/state"
 
 	"verif/harness/rig"
 )
@@ -78,6 +79,30 @@ func c20Password(r interface{ Intn(int) int }) (string, string) {
 // c20Session runs one session and returns the log records and whether a PASS line reached the wire.
 func c20Session(c *Ctx, logger *rig.CapLogger, pass, kind string, capn, useSasl, tracking bool, failAt int) (recs []rig.LogRecord, passOnWire bool, ok bool) {
 	logger.Reset()
+	if kind == "badcfg" {
+		// clients built from configurations that lack a usable identity (Client() substitutes its defaults), never
+		// connected: whatever Client(), Config() and String() log must not show the password either
+		for v := 0; v < 4; v++ {
+			cfg := &client.Config{Server: "irc.test", Pass: pass, EnableCapabilityNegotiation: capn}
+			switch v {
+			case 1:
+				cfg.Me = &state.Nick{Nick: "", Ident: "ident"}
+			case 2:
+				cfg.Me = &state.Nick{Nick: "nick", Ident: ""}
+			case 3:
+				cfg = client.NewConfig("")
+				cfg.Server, cfg.Pass = "irc.test", pass
+			}
+			conn := client.Client(cfg)
+			if tracking {
+				conn.EnableStateTracking()
+			}
+			_ = conn.String()
+			_ = conn.Config()
+			conn.Close()
+		}
+		return logger.Records(), false, true
+	}
 	s := NewSession(SessionOpts{Flood: true, Tracking: tracking, Mutate: func(cfg *client.Config) {
 		cfg.Pass = pass
 		cfg.EnableCapabilityNegotiation = capn
@@ -92,6 +117,10 @@ func c20Session(c *Ctx, logger *rig.CapLogger, pass, kind string, capn, useSasl,
 		// changing it after connecting); the PASS line is still queued then: the server starts reading only afterwards
 		s.EP.Prepare(func(mc *rig.MemConn) { mc.Stall(0) })
 		s.Conn.HandleFunc(client.REGISTER, func(cc *client.Conn, l *client.Line) { cc.Config().Pass = "" })
+	case "stallclose":
+		// the server never reads: the first registration line blocks in the write and the others (PASS among them
+		// when negotiation is on) are still queued when the connection ends and the queue is discarded
+		s.EP.Prepare(func(mc *rig.MemConn) { mc.Stall(0) })
 	case "refused":
 		s.EP.RefuseNext(nil)
 	case "writeerr":
@@ -119,6 +148,20 @@ func c20Session(c *Ctx, logger *rig.CapLogger, pass, kind string, capn, useSasl,
 			mc.Resume()
 		}
 		switch kind {
+		case "stallclose":
+			for k := 0; k < 50*failAt; k++ {
+				runtimeGosched()
+			}
+			if failAt == 1 {
+				mc.ResetByPeer(nil)
+			} else if !CloseWatched(s.Conn) {
+				c.R.Inconcl("Close did not return")
+				return nil, false, false
+			}
+			if !waitCh(chanOf(disc)) {
+				c.R.Inconcl("no DISCONNECTED after ending a stalled connection")
+				return nil, false, false
+			}
 		case "writeerr", "eof":
 			if !waitCh(chanOf(disc)) {
 				c.R.Inconcl("no DISCONNECTED after an injected " + kind)
@@ -254,7 +297,7 @@ func runC20(c *Ctx) {
 	total := c.Pick(4000, 100000)
 	per := total / parts
 	logger := rig.NewCapLogger(nil)
-	kinds := []string{"ok", "ok", "refused", "writeerr", "eof", "reconnect", "scrub"}
+	kinds := []string{"ok", "ok", "refused", "writeerr", "eof", "reconnect", "scrub", "stallclose", "badcfg"}
 	for i := 0; i < per; i++ {
 		idx := part*per + i
 		if !c.Want("pw", idx) {
